@@ -162,6 +162,12 @@ def run(ck):
     scanning_loop(ck)
     from .c11 import window_arguments
     window_arguments(ck, "C16.2")
+    # argument / attribute roles in the correlation module (query vs reference, start vs end, resolution vs blur are plain
+    # positional ints and maps there: an exchange type-checks and runs)
+    from ..rules import role as R
+    n_roles = R.run_role_rule(ck, "C16.2", modules={"src.correlation.optical_map", "src.correlation.peaks_selector",
+                                                    "src.correlation.sequence_generator", "src.correlation.vectorise"})
+    ck.floor("C16.2 role bindings judged in the correlation modules", n_roles, 80)
     # ---- createPeaks
     cp = p.find_method("CorrelationResult", "createPeaks")
     heights = T.mk_idx(V("peakProperties"), C("peak_heights"))
